@@ -17,7 +17,7 @@ Record case := mk_case {
   o_batches : list (list row); o_batches_ra : Z;
   (* further destination kinds *)
   o_ptrs : list row;                      (* Find into a slice of pointers *)
-  o_array : list row;                     (* Find into an array (first RowsAffected elements) *)
+  o_array : list row;                     (* Find into a pre-filled array: the slots that are not zero afterwards *)
   o_single : option row; o_single_ra : Z; (* Find into one struct: the first row *)
   o_prim : option Z; o_prim_ra : Z;       (* Select(id).Scan into one integer: keeps the last row *)
   o_scanmaps : list row; o_scanmaps_ra : Z;   (* Scan into a slice of maps *)
